@@ -116,3 +116,140 @@ func (p *Prog) guardedIP(in ssa.Instruction, match func(g Guard) bool, depth int
 	}
 	return true
 }
+
+// factHolds: on every way to instruction in, a guard satisfying match holds — as a dominating guard, through the
+// callers of a private helper (guardedIP), or as the consequence of a validation helper's outcome that a dominating
+// guard tests:
+//   err := checkIncoming(t, id); if err != nil { return }      the fact holds at every return of the helper that can yield nil
+//   ws := pickWebseed(t, idle); if ws == nil { return }         … at every return that can yield a non-nil value
+//   if !allowed(t) { return }                                   … at every return that can yield true
+// (recursively, two levels). match must judge a guard by what it tests, not by identity with local values.
+func (p *Prog) factHolds(in ssa.Instruction, match func(g Guard) bool, depth int) bool {
+	if p.guardedIP(in, match, 0) {
+		return true
+	}
+	if depth > 2 {
+		return false
+	}
+	ne := newNilEnv(p)
+	for _, g := range guardsOf(in.Block()) {
+		g = g.norm()
+		var call *ssa.Call
+		resIdx := 0
+		outcome := 0 // 1 nil, 2 non-nil, 3 true, 4 false
+		if c, ok := g.Cond.(*ssa.Call); ok {
+			call = c
+			outcome = 4
+			if g.Pol {
+				outcome = 3
+			}
+		} else if x, isNil, ok := nilFact(g); ok {
+			switch y := x.(type) {
+			case *ssa.Call:
+				call = y
+			case *ssa.Extract:
+				call, _ = y.Tuple.(*ssa.Call)
+				resIdx = y.Index
+			case *ssa.UnOp:
+				// a local variable holding one call's result (err = check(…))
+				if al, isAl := y.X.(*ssa.Alloc); isAl {
+					n := 0
+					for _, ref := range *al.Referrers() {
+						if st, isSt := ref.(*ssa.Store); isSt && st.Addr == ssa.Value(al) {
+							n++
+							switch z := st.Val.(type) {
+							case *ssa.Call:
+								call = z
+							case *ssa.Extract:
+								call, _ = z.Tuple.(*ssa.Call)
+								resIdx = z.Index
+							}
+						}
+					}
+					if n != 1 {
+						call = nil
+					}
+				}
+			case *ssa.Phi:
+				// err reused: every non-nil-constant edge is a result of the same helper call — keep it simple: one call
+				var only *ssa.Call
+				okPhi := true
+				for _, e := range y.Edges {
+					switch z := e.(type) {
+					case *ssa.Call:
+						if only != nil && only != z {
+							okPhi = false
+						}
+						only = z
+					case *ssa.Extract:
+						cc, _ := z.Tuple.(*ssa.Call)
+						if only != nil && only != cc {
+							okPhi = false
+						}
+						only, resIdx = cc, z.Index
+					default:
+						okPhi = false
+					}
+				}
+				if okPhi {
+					call = only
+				}
+			}
+			outcome = 2
+			if isNil {
+				outcome = 1
+			}
+		}
+		if call == nil || call.Call.IsInvoke() {
+			continue
+		}
+		h := call.Call.StaticCallee()
+		if h == nil || h.Blocks == nil || call.Parent() == nil || funcPkgPath(h) != funcPkgPath(call.Parent()) {
+			continue
+		}
+		any, all := false, true
+		for _, ret := range returnsOf(h) {
+			res := retResults(ret)
+			if resIdx >= len(res) {
+				all = false
+				break
+			}
+			rv := res[resIdx]
+			extra := []Guard{}
+			switch outcome {
+			case 1:
+				if !isNilConst(rv) && ne.At(rv, ret.Block()) == NonNil {
+					continue
+				}
+			case 2:
+				if isNilConst(rv) || ne.At(rv, ret.Block()) == IsNil {
+					continue
+				}
+			case 3, 4:
+				want := outcome == 3
+				if b, isb := constBool(rv); isb {
+					if b != want {
+						continue
+					}
+				} else {
+					extra = append(extra, Guard{Cond: rv, Pol: want})
+				}
+			}
+			any = true
+			held := false
+			for _, fg := range expandGuards(append(guardsOfRaw(ret.Block()), extra...)) {
+				if match(fg.norm()) {
+					held = true
+				}
+			}
+			if !held && !p.factHolds(ret, match, depth+1) {
+				all = false
+				break
+			}
+		}
+		if any && all {
+			return true
+		}
+	}
+	return false
+}
